@@ -50,6 +50,7 @@ class Rec:
         self.stats: dict[str, float] = {"processes": 0, "effects": 0, "days": 0}
         self.states: list[str] = []
         self.softs: list[dict] = []
+        self.nontrivial: list[str] = []  # optional: digests of the distinct non-trivial cases of this run
 
     def probe(self, name: str, n: int = 1) -> None:
         if n:
@@ -89,6 +90,7 @@ class Rec:
             "probes": self.probes,
             "stats": self.stats,
             "states": self.states,
+            "nontrivial": self.nontrivial,
             "harness_error": harness_error,
         }
 
